@@ -133,6 +133,12 @@ impl Parser {
             }
 
             let ident_span = ident_node.as_span();
+
+            // `self` is skipped above without looking at what follows it: a type annotation written behind it (`self: T`) arrives here
+            if ident_node.as_rule() != Rule::ident {
+                return Err(new_err(ident_span, &file_name, "`self` does not take a type annotation".to_owned()));
+            }
+
             let mut ident = Self::ident(ident_node)?;
 
             let ty: Option<Node> = children.next();
